@@ -14,8 +14,7 @@ Model of the magic memories of pymtl3 (property C18).
 
 What is outside the model (validated only through the correspondence check): request types other
 than READ / WRITE / the nine AMOs (`INV`/`FLUSH` answer without touching the store, every other
-type hits `assert False`), addresses beyond `mem_nbytes` (IndexError), AMOs whose `len` is not the
-full data width (width error inside `AMO_FUNS`), the test sources / sinks (their behaviour enters
+type hits `assert False`), addresses beyond `mem_nbytes` (IndexError), the test sources / sinks (their behaviour enters
 the system models as arbitrary per-cycle Bool streams `offer` / `srcVal` / `sinkRdy`), the random
 number generator of the stall components (enters as an arbitrary per-cycle Bool stream `stall`).
 
@@ -109,9 +108,13 @@ def service (r : Req) (m : Store) : Resp × Store :=
     (⟨Kind.read.code, r.opq, 0, r.len, readLE m r.addr k⟩, m)
   | .write =>     -- mem.write(addr, len_, req.data[0:len_<<3]);  resp(type, opaque, 0, 0, 0)
     (⟨Kind.write.code, r.opq, 0, 0, 0⟩, writeLE m r.addr k (r.data % 2 ^ (8 * k)))
-  | .amo op =>    -- ret = read(addr, len_); write(addr, len_, AMO_FUNS[op](ret, data)); resp(.., req.len, ret)
+  | .amo op =>    -- resp(type, opaque, 0, req.len, zext(mem.amo(type, addr, len_, req.data[0:len_<<3]), data_nbits)) with
+                  -- amo: ret = read(addr, len_); write(addr, len_, AMO_FUNS[op](ret, data)); return ret
+                  -- a sub-word AMO (`len_` < `nb`) works on the low `len_` bytes of the data field, at width `8*len_`
+                  -- (signed min / max at that width), and answers the old `len_` bytes zero-extended; the full-width
+                  -- AMO is the case `len = 0` (`r.data % 2^(8*nb) = r.data` for a well-formed message)
     let old := readLE m r.addr k
-    (⟨op.code, r.opq, 0, r.len, old⟩, writeLE m r.addr k (amoFun (8 * k) op old r.data))
+    (⟨op.code, r.opq, 0, r.len, old⟩, writeLE m r.addr k (amoFun (8 * k) op old (r.data % 2 ^ (8 * k))))
 
 /-- the sequential specification: one memory, requests applied one after another -/
 def seqSpec : List Req → Store → List Resp × Store
@@ -155,7 +158,7 @@ def effect (r : Req) (m : Store) : Option WEvent :=
   match r.kind with
   | .read => none
   | .write => some ⟨r.addr, k, r.data % 2 ^ (8 * k)⟩
-  | .amo op => some ⟨r.addr, k, amoFun (8 * k) op (readLE m r.addr k) r.data⟩
+  | .amo op => some ⟨r.addr, k, amoFun (8 * k) op (readLE m r.addr k) (r.data % 2 ^ (8 * k))⟩
 
 /-- store events of a run, oldest first -/
 def effects : List Req → Store → List WEvent
